@@ -91,6 +91,15 @@ func (t *WeightedMerkleTrie) Update(key, value []byte, weight uint64) error {
 
 func (t *WeightedMerkleTrie) insert(node Node, prefix, key []byte, value Node) (int64, Node, error) {
 	if len(key) == 0 {
+		if hn, ok := node.(*hashNode); ok {
+			// a value collapsed by a commit: load it, so that the update replaces it
+			// instead of being counted on top of it
+			rn, err := t.resolveHashNode(hn)
+			if err != nil {
+				return 0, nil, err
+			}
+			node = rn
+		}
 		if v, ok := node.(*valueNode); ok {
 			newVal := value.(*valueNode).value
 			if bytes.Equal(v.value, newVal) {
